@@ -20,8 +20,9 @@ def declare(reg):
 
     # ------------------------------------------------------------------ providers
     reg.cls("Ctx", __isinstance__={"HostContext": "uf('is_host_context', BOOL, self)"})
-    reg.cls("Provider", pyclasses=["FileProvider", "CommandOutputProvider"], ctx=Ref("Ctx"), ds=U("Comp"), root=STR, relative_path=STR,
+    reg.cls("Provider", pyclasses=["FileProvider"], ctx=Ref("Ctx"), ds=U("Comp"), root=STR, relative_path=STR,
             _filterable=BOOL, _filters=Map(STR, INT), cmd=STR, _env=PY)
+    reg.cls("CmdProvider", pyclasses=["CommandOutputProvider"], ctx=Ref("Ctx"), ds=U("Comp"), _filterable=BOOL, _filters=Map(STR, INT), cmd=STR, _env=PY)
     reg.cls("Comp", __truthy__=True)
     for n in ("log.warning", "log.debug", "log.info"):
         reg.external(n, drop=True)
@@ -53,14 +54,119 @@ def declare(reg):
                      "implies(%s, not %s)" % (HOST, DENIED.format(S="uf('file_deny', Set(STR))", c="('/' + self.relative_path)")),
                      "implies(%s and self._filterable, truthy(self._filters))" % HOST,
                  ])
+    # ------------------------------------------------------------------ typestate: every file provider a factory hands out went through validate
+    # VALID(p): what FileProvider.validate establishes for a provider object (containment in ITS root; during host collection not denied and,
+    # if filterable, filtered).  FileProvider.__init__ ends in validate(); the factories construct providers with the ROOT OF THE CONTEXT they
+    # resolved and pass that context on, so VALID speaks about the execution context's root and the deny list is consulted.
+    def VALID(p):
+        path = "uf('path_join', STR, %s.root, %s.relative_path)" % (p, p)
+        host = "uf('is_host_context', BOOL, %s.ctx)" % p
+        return ["(%s)" % WITHIN.format(p=REAL.format(p=path), r=REAL.format(p="%s.root" % p)),
+                "implies(%s, not %s)" % (host, DENIED.format(S="uf('file_deny', Set(STR))", c="('/' + %s.relative_path)" % p)),
+                "implies(%s and %s._filterable, truthy(%s._filters))" % (host, p, p)]
+    reg.classes["Provider"].update(save_as=Opt(STR), cleaner=PY, file_name=STR, loaded=BOOL, _content=PY, _exception=PY)
+    reg.cls("Comp", filterable=BOOL)
+    reg.external("filters.get_filters", params=collections.OrderedDict(component=U("Comp"), with_matches=BOOL), returns=Map(STR, INT), pure=True)
+    reg.external("dr.get_registry_points", params=dict(component=U("Comp")), returns=Set(U("Comp")), pure=True)
+    reg.external("filters.ENABLED", returns=BOOL, pure=True)
+    reg.contract(SF, "FileProvider.__init__",
+                 params=collections.OrderedDict(self=P, relative_path=STR, root=STR, save_as=Opt(STR), ds=Opt(U("Comp")), ctx=Ref("Ctx"), cleaner=PY),
+                 defaults=dict(root="'/'", save_as="None", ds="None", ctx="None", cleaner="None"),
+                 from_stmt="super(FileProvider, self).__init__()", from_after=True,
+                 modifies=["Provider.ds", "Provider.ctx", "Provider.root", "Provider.cleaner", "Provider.relative_path", "Provider.save_as",
+                           "Provider.file_name", "Provider._filterable", "Provider._filters"],
+                 raises={"ContentException": None, "BlacklistedSpec": None, "Exception": None, "NoFilterException": None},
+                 ensures=["self.root == root and self.ctx == ctx"] + VALID("self"),
+                 note="the constructor from after the base-class constructor call (ContentProvider.__init__ sets bookkeeping fields only)")
+    # the file factories: simple_file, first_file, glob_file.  `kind` is the provider class stored by the factory's constructor; calling it
+    # is FileProvider.__init__ (RawFileProvider / TextFileProvider inherit it unchanged): the contract above, as seen from a caller
+    FK = U("FileKind")
+    FB = Ref("FBroker")
+    F = Ref("Factory")
+    reg.sort(FileKind=FK)
+    reg.classes["Ctx"].update(root=STR)
+    reg.interface("Ctx", "locate_path", params=dict(self=Ref("Ctx"), path=STR), returns=STR, pure=True, raises={},
+                  ensures=["result == uf('locate_path', STR, self, path)"], note="ExecutionContext.locate_path: a pure function of the context and the path")
+    reg.cls("FBroker")
+    reg.interface("FBroker", "get", params=collections.OrderedDict(self=FB, key=PY), returns=PY, pure=True, raises={})
+    reg.cls("Factory", pyclasses=["simple_file", "first_file", "glob_file"], path=STR, paths=List(STR), patterns=List(STR), save_as=Opt(STR),
+            context=PY, kind=FK, max_files=INT, ignore=PY, __truthy__=True)
+    CTX0 = "uf('resolved_ctx', Ref('Ctx'), self.context, broker)"
+    reg.external("_get_context", params=collections.OrderedDict(context=PY, broker=FB), returns=Ref("Ctx"), pure=True, raises={},
+                 ensures=["result == uf('resolved_ctx', Ref('Ctx'), context, broker)"],
+                 note="_get_context: the execution context the broker holds for the factory's declared context(s); read-only")
+    reg.callables = getattr(reg, "callables", {})
+    reg.callables[("Factory", "kind")] = reg.external(
+        "<file provider class>", params=collections.OrderedDict(k=FK, relative_path=STR, root=STR, save_as=Opt(STR), ds=F, ctx=Ref("Ctx"), cleaner=PY),
+        defaults=dict(root="'/'", save_as="None", ds="None", ctx="None", cleaner="None"), returns=P,
+        raises={"ContentException": None, "BlacklistedSpec": None, "Exception": None, "NoFilterException": None}, raise_frame="unchanged",
+        ensures=["result.root == root and result.ctx == ctx"] + VALID("result"),
+        note="calling the provider class a factory stores in `kind` runs FileProvider.__init__ (verified above) on a new object")
+    # a provider handed out by a factory: validated against the root of the context the factory resolved, with that context passed on
+    def HANDED(p):
+        return ["%s.root == %s.root and %s.ctx == %s" % (p, CTX0, p, CTX0)] + VALID(p)
+    FRAISES = {"ContentException": None, "BlacklistedSpec": None, "Exception": None, "NoFilterException": None, "AttributeError": None}
+    reg.contract(SF, "simple_file.__call__", params=collections.OrderedDict(self=F, broker=FB), returns=P, raises=FRAISES,
+                 ensures=HANDED("result"))
+    reg.contract(SF, "first_file.__call__", params=collections.OrderedDict(self=F, broker=FB), returns=P, raises=FRAISES,
+                 loops={0: ["it_0 == self.paths", "root == %s.root and ctx == %s" % (CTX0, CTX0)]}, locals=dict(root=STR, ctx=Ref("Ctx"), cleaner=PY),
+                 ensures=HANDED("result"))
+    reg.external("glob", params=dict(p=STR), returns=List(STR), pure=True, note="glob.glob: some list of paths")
+    reg.callables[("Factory", "ignore_func")] = reg.external("<ignore predicate>", params=collections.OrderedDict(f=PY, path=STR), returns=BOOL, pure=True, raises={})
+    reg.classes["Factory"].update(ignore_func=PY)
+    GINV = ["root == %s.root and ctx == %s" % (CTX0, CTX0),
+            "forall(j, range(0, len(results)), %s)" % " and ".join(HANDED("results[j]"))]
+    reg.contract(SF, "glob_file.__call__", params=collections.OrderedDict(self=F, broker=FB), returns=List(P), raises=FRAISES,
+                 locals=dict(root=STR, ctx=Ref("Ctx"), cleaner=PY, results=List(P), pattern=STR),
+                 loops={0: ["it_0 == self.patterns"] + GINV, 1: GINV},
+                 ensures=["forall(j, range(0, len(result)), %s)" % " and ".join(HANDED("result[j]"))])
     reg.external("shlex.split", params=dict(s=STR), returns=List(STR), pure=True, ensures=["len(result) >= 1"],
                  note="shlex.split of a non-empty command line has at least one word (an empty command raises IndexError in the real code)")
     reg.external("which", params=dict(cmd=STR, env=PY), returns=PY)
-    reg.contract(SF, "CommandOutputProvider.validate", params=dict(self=P),
+    reg.contract(SF, "CommandOutputProvider.validate", params=dict(self=Ref("CmdProvider")),
                  raises={"ContentException": None, "BlacklistedSpec": None,
                          "NoFilterException": "?%s and self._filterable and not truthy(self._filters)" % HOST},
                  ensures=["implies(%s, not %s)" % (HOST, DENIED.format(S="uf('cmd_deny', Set(STR))", c="self.cmd")),
                           "implies(%s and self._filterable, truthy(self._filters))" % HOST])
+    # ------------------------------------------------------------------ commands: CommandOutputProvider.__init__ ends in validate(); simple_command hands out
+    # a provider for ITS command, bound to the context the broker holds
+    CP = Ref("CmdProvider")
+    def VALIDC(p):
+        host = "uf('is_host_context', BOOL, %s.ctx)" % p
+        return ["implies(%s, not %s)" % (host, DENIED.format(S="uf('cmd_deny', Set(STR))", c="%s.cmd" % p)),
+                "implies(%s and %s._filterable, truthy(%s._filters))" % (host, p, p)]
+    reg.classes["CmdProvider"].update(root=STR, save_as=Opt(STR), args=PY, split=BOOL, keep_rc=BOOL, timeout=PY, inherit_env=PY, override_env=PY, signum=PY,
+                                      rc=PY, cleaner=PY, _content=PY, relative_path=STR)
+    reg.external("six.PY3", returns=BOOL, pure=True)
+    reg.external("signal.SIGKILL", returns=PY, pure=True)
+    reg.external("mangle_command", params=dict(command=STR), returns=STR, pure=True)
+    reg.interface("CmdProvider", "_misc_settings", params=dict(self=CP), raises={}, modifies=["CmdProvider.relative_path"],
+                  note="_misc_settings: sets relative_path (and, in the container sub-classes, image / engine bookkeeping) - not the command or the context")
+    reg.interface("CmdProvider", "create_env", params=dict(self=CP), returns=PY, pure=True, raises={})
+    CMD_ARGS = collections.OrderedDict(cmd=STR, ctx=Ref("Ctx"), root=STR, save_as=Opt(STR), args=PY, split=BOOL, keep_rc=BOOL, ds=Opt(U("Comp")), timeout=PY,
+                                       inherit_env=PY, override_env=PY, signum=PY, cleaner=PY)
+    CMD_DEF = dict(root="'insights_commands'", save_as="None", args="None", split="True", keep_rc="False", ds="None", timeout="None", inherit_env="None",
+                   override_env="None", signum="None", cleaner="None")
+    CRAISES = {"ContentException": None, "BlacklistedSpec": None, "NoFilterException": None}
+    reg.contract(SF, "CommandOutputProvider.__init__", params=collections.OrderedDict([("self", CP)] + list(CMD_ARGS.items())), defaults=CMD_DEF,
+                 from_stmt="super(CommandOutputProvider, self).__init__()", from_after=True,
+                 modifies=["CmdProvider." + f for f in ("cmd", "root", "save_as", "ctx", "args", "split", "keep_rc", "ds", "timeout", "inherit_env", "override_env",
+                                                        "signum", "rc", "cleaner", "_content", "_env", "_filterable", "_filters", "relative_path")],
+                 raises=CRAISES, ensures=["self.ctx == ctx"] + VALIDC("self"))
+    reg.cls("CFactory", pyclasses=["simple_command"], cmd=STR, context=PY, save_as=Opt(STR), split=BOOL, keep_rc=BOOL, timeout=PY, inherit_env=PY, override_env=PY,
+            signum=PY, __truthy__=True)
+    CB = Ref("CBroker")
+    reg.cls("CBroker")
+    reg.interface("CBroker", "get", params=collections.OrderedDict(self=CB, key=PY), returns=PY, pure=True, raises={})
+    reg.interface("CBroker", "__getitem__", params=collections.OrderedDict(self=CB, key=PY), returns=Ref("Ctx"), pure=True, raises={"KeyError": None},
+                  ensures=["result == uf('held_ctx', Ref('Ctx'), self, key)"], note="broker[context]: the execution context the broker holds")
+    reg.external("CommandOutputProvider", params=collections.OrderedDict(list(CMD_ARGS.items())[:-6] + [("ds", Ref("CFactory"))] + list(CMD_ARGS.items())[-5:]),
+                 defaults=CMD_DEF, returns=CP, raises=CRAISES, raise_frame="unchanged",
+                 ensures=["result.ctx == ctx"] + VALIDC("result"),
+                 note="constructing a CommandOutputProvider runs CommandOutputProvider.__init__ (verified above) on a new object")
+    reg.contract(SF, "simple_command.__call__", params=collections.OrderedDict(self=Ref("CFactory"), broker=CB), returns=CP,
+                 raises=dict(CRAISES, KeyError=None),
+                 ensures=["result.ctx == uf('held_ctx', Ref('Ctx'), broker, self.context)"] + VALIDC("result"))
     # other os.path functions a change might reach for: arbitrary (unrelated to realpath unless stated)
     for n in ("os.path.islink", "os.path.isfile", "os.path.isdir", "os.path.isabs"):
         reg.external(n, params=dict(p=STR), returns=BOOL, pure=True, ensures=["result == uf('%s', BOOL, p)" % n.replace(".", "_")])
